@@ -5,6 +5,7 @@ import (
 	"os"
 	"os/exec"
 	"path/filepath"
+	"strings"
 	"time"
 
 	"pgregory.net/rapid"
@@ -52,6 +53,31 @@ func c18Main(e *Env) (*res.Result, error) {
 			o := specgen.DefaultCompOpts()
 			o.Security, o.Texts = false, false
 			d = c.Composition(o)
+		}
+		// component names are case-sensitive: a twin that differs from an existing object
+		// component in the case of its first letter only, with another shape, referenced
+		// from an operation of its own
+		if d.Components != nil && rapid.IntRange(0, 2).Draw(t, "case_twin") == 0 {
+			for _, name := range specgen.SortedKeys(d.Components.Schemas) {
+				cs := d.Components.Schemas[name]
+				if cs == nil || cs.Ref != "" || cs.Type != "object" || len(name) < 2 {
+					continue
+				}
+				twin := strings.ToLower(name[:1]) + name[1:]
+				if twin == name {
+					twin = strings.ToUpper(name[:1]) + name[1:]
+				}
+				if _, taken := d.Components.Schemas[twin]; taken || twin == name {
+					continue
+				}
+				prop := c.SafeName("tw", "twinprop")
+				d.Components.Schemas[twin] = &specgen.Schema{Type: "object", Properties: map[string]*specgen.Schema{prop: {Type: "integer", Format: "int32"}}, Required: []string{prop}}
+				op := &specgen.Operation{RequestBody: &specgen.RequestBody{Required: true, Content: specgen.JSONContent(&specgen.Schema{Ref: specgen.RefSchemas + twin})},
+					Responses: map[string]*specgen.Response{"200": {Description: specgen.Str("ok"), Content: specgen.JSONContent(&specgen.Schema{Ref: specgen.RefSchemas + twin})}}}
+				d.Paths["/"+c.PlainName("twin", "twinpath")] = &specgen.PathItem{Put: op}
+				c.Tag("components:case-twin")
+				break
+			}
 		}
 		bf := rapid.SampledFrom(forms).Draw(t, "baseform")
 		d.Servers = bf.Servers
